@@ -85,6 +85,9 @@ func runC05(c *CaseCtx) *CaseResult {
 	if (c.Case-c05SweepCases)%50 >= 48 {
 		return c05Deep(c, kind, r)
 	}
+	if (c.Case-c05SweepCases)%25 == 21 {
+		return runCollapseCase(c, r)
+	}
 	ops := 900
 	if c.Tier == "thorough" {
 		ops = 1500 + r.Intn(3000)
@@ -168,6 +171,177 @@ func runDeepCase(c *CaseCtx, kind string, r *rand.Rand) (*CaseResult, *World) {
 		s.Extra["deep-tree-cases-depth>=4"]++
 	}
 	return res, w
+}
+
+// runCollapseCase: REMOVAL THAT MAKES THE TREE GROW. Under the paired digest profile every collision group has exactly two
+// members; with large values such a group lives in an external slab and its data slab only holds a 20-odd byte reference.
+// Removing either member dissolves the group: the surviving (large) element moves back into the data slab, which can
+// overflow and split - during a Remove. The case builds n pairs, then removes one member of every pair (PRNG order), then
+// the rest, with the structural walk after every operation; the number of pairs is chosen so that the root index slab (and,
+// for the larger n, the second-level index slabs) pass through "full" during the removal phase.
+func runCollapseCase(c *CaseCtx, r *rand.Rand) *CaseResult {
+	slab := []uint32{256, 256, 300, 512, 272}[r.Intn(5)]
+	res := &CaseResult{Config: map[string]any{"kind": "map", "collapse_case": true, "slab_size": slab}}
+	atree.VerifSetThreshold(slab)
+	defer atree.VerifSetThreshold(1024)
+	w := NewWorld(c.CaseSeed(), addrOf(byte(1+c.Case%200), 0))
+	w.prof.MaxDepth = 0
+	w.prof.PContainer = 0
+	w.mon = MonCfg{TreeEvery: 1, ReachEvery: 25, DeepEvery: 400, RefEvery: 400, DirtyEvery: 10, ColdAtCommit: true}
+	res.Stats = w.stats
+	finish := func(e error) *CaseResult {
+		if e != nil {
+			if v, ok := e.(*Violation); ok {
+				res.fail(v)
+			} else {
+				res.fail(viol("harness", "%v", e))
+			}
+		}
+		res.Trace = w.trace
+		res.Hash = traceHash(res.Config, w.trace)
+		return res
+	}
+	defer func() {
+		if p := recover(); p != nil {
+			res.Trace = w.trace
+			panic(p)
+		}
+	}()
+	dig := &DigProfile{Paired: true, Salt: uint64(r.Int63())}
+	root, err := w.NewRootMap(w.addr, w.newTI(false), dig)
+	if err != nil {
+		return finish(err)
+	}
+	w.AddRoot(root)
+	pairs := []int{40, 90, 150, 220, 330, 480}[r.Intn(6)]
+	if c.Tier == "thorough" {
+		pairs += r.Intn(900)
+	}
+	res.Config["pairs"] = pairs
+	w.logOp("create root %s slab=%d pairs=%d", root, slab, pairs)
+	step := func(err error) error {
+		if err != nil {
+			return err
+		}
+		return w.AfterOp()
+	}
+	vlimit := int(atree.VerifMaxInlineMapValueSize(9))
+	value := func() *Node {
+		switch r.Intn(14) {
+		case 0:
+			return &Node{Kind: KU64, U: uint64(r.Intn(1000))} // small: the group stays inline
+		case 1:
+			return &Node{Kind: KStr, S: w.strOfByteSize(vlimit/3 + r.Intn(9))}
+		case 2, 3, 4:
+			return &Node{Kind: KStr, S: w.strOfByteSize(vlimit/2 - 4 + r.Intn(9))}
+		case 5, 6, 7:
+			return &Node{Kind: KStr, S: w.strOfByteSize(vlimit*3/4 + r.Intn(9))}
+		default:
+			return &Node{Kind: KStr, S: w.strOfByteSize(vlimit - r.Intn(4))}
+		}
+	}
+	key := func(i int) *Node { return &Node{Kind: KU64, U: uint64(i)} }
+	rootKids := func() (int, uint32) {
+		if si := atree.VerifSlabInfo(atree.VerifMapRoot(root.Map)); si != nil && si.Kind == "map-meta" {
+			return len(si.Children), si.Size
+		}
+		return 0, 0
+	}
+	if adaptive := r.Intn(3) != 0; adaptive {
+		// build pair by pair until the ROOT index slab is within one child of overflowing (a two-level tree whose root has
+		// room for exactly one more child): the removal phase then pushes it over during a Remove
+		res.Config["build"] = "until the root index slab has room for exactly one more child"
+		max := atree.VerifThresholds().Max
+		pairs = 0
+		for pairs < 1500 {
+			for _, k := range []int{2 * pairs, 2*pairs + 1} {
+				if err := step(w.OpMapSet(root, key(k), value())); err != nil {
+					return finish(err)
+				}
+			}
+			pairs++
+			if kids, size := rootKids(); kids >= 3 {
+				per := (size - 12) / uint32(kids)
+				if size+per <= max && size+2*per > max {
+					w.stats.Extra["collapse-cases-built-to-a-nearly-full-root-index-slab"]++
+					break
+				}
+			}
+		}
+		res.Config["pairs"] = pairs
+	} else {
+		for _, i := range r.Perm(2 * pairs) {
+			if err := step(w.OpMapSet(root, key(i), value())); err != nil {
+				return finish(err)
+			}
+		}
+	}
+	if err := w.CommitAndCheck(false, 2); err != nil {
+		return finish(err)
+	}
+	if r.Intn(2) == 0 {
+		w.DropCache()
+	}
+	groupsBefore := w.stats.ExtGroupsSeen
+	// one member of every pair
+	for _, i := range r.Perm(pairs) {
+		k := 2*i + r.Intn(2)
+		before := w.stats.SlabsCreated
+		kids0, _ := rootKids()
+		if err := step(w.OpMapRemove(root, key(k))); err != nil {
+			return finish(err)
+		}
+		if w.stats.SlabsCreated > before {
+			w.stats.Extra["removals-that-created-slabs"]++
+		}
+		if kids1, size1 := rootKids(); kids0 > 0 && kids1 > kids0 {
+			w.stats.Extra["removals-that-added-a-child-to-the-root-index-slab"]++
+			if pct := int(size1 * 100 / atree.VerifThresholds().Max); pct > w.stats.Extra["max-root-index-fill-pct-after-growing-removal"] {
+				w.stats.Extra["max-root-index-fill-pct-after-growing-removal"] = pct
+			}
+		} else if kids0 > 2 && kids1 == 2 {
+			w.stats.Extra["root-index-slab-splits-during-removal"]++
+		}
+		if r.Intn(12) == 0 {
+			// the survivor shrinks / grows in place
+			if err := step(w.OpMapSet(root, key(k^1), value())); err != nil {
+				return finish(err)
+			}
+		}
+	}
+	if err := w.CommitAndCheck(false, 2); err != nil {
+		return finish(err)
+	}
+	// regrow half of the groups, then drain
+	for _, i := range r.Perm(pairs)[:pairs/2] {
+		for _, k := range []int{2 * i, 2*i + 1} {
+			if _, ok := root.M[keyString(key(k))]; !ok {
+				if err := step(w.OpMapSet(root, key(k), value())); err != nil {
+					return finish(err)
+				}
+			}
+		}
+	}
+	for _, k := range r.Perm(2 * pairs) {
+		if _, ok := root.M[keyString(key(k))]; ok {
+			if err := step(w.OpMapRemove(root, key(k))); err != nil {
+				return finish(err)
+			}
+		}
+	}
+	if err := w.CheckTree(true); err != nil {
+		return finish(err)
+	}
+	if err := w.CommitAndCheck(false, 2); err != nil {
+		return finish(err)
+	}
+	_ = groupsBefore
+	s := w.stats
+	res.NonTrivial = s.Extra["removals-that-created-slabs"] > 0 && s.ExtGroupsSeen > 0 && s.MaxRootSlabs >= 3
+	if res.NonTrivial {
+		s.Extra["collapse-cases-with-growing-removals"]++
+	}
+	return finish(nil)
 }
 
 // ---------------------------------------------------------------------------------------------
@@ -770,10 +944,11 @@ func init() {
 		Rule: "cases 0..15 = exhaustive sweep of every legal slab size 256..32768 (residue classes mod 16) checking the arithmetic behind 'a full slab holds >= 2 elements'; " +
 			"remaining cases = seeded histories with the hostile size profile (strings at the inline limit -2..+2, at 1/2 and 1/4 of the limit, one-byte and larger-than-slab elements, in-place growth/shrink via Set) on arrays and maps, " +
 			"independent structural walk after every operation (size band of every size-limited slab, element limits, header/child agreement, prefix sums, first digests, sorted-unique digests, sibling links, root index >= 2 children). " +
+			"every 25th history case is a COLLAPSE case (paired digests: every collision group has two members; n pairs with large values are built, then one member of each pair is removed - the group dissolves, the survivor moves back into its data slab, which overflows and SPLITS DURING A REMOVE while the root / second-level index slabs pass through 'full'). " +
 			"one pair in every 50 history cases is a DEEP-TREE case (slab size 256..300, thousands of small elements, tree depth >= 4: splits / merges / borrowing between index slabs over several levels, walk every 16 operations and after every slab-creating or -removing operation). " +
 			"non-trivial = >=3 slabs, slabs observed within 8 bytes of both band edges, slab-creating and slab-removing operations (deep cases: depth >= 4); distinct by hash(config, operation list)",
 		Assumptions: []string{"the size constants restated in harness/walker.go are cross-checked against real encodings by the C06 check", "exploration, not proof"},
-		Mandatory:   []string{"slabs_near_upper_bound", "slabs_near_lower_bound", "ops_that_removed_slabs", "slab_sizes_swept", "deep-tree-cases-depth>=4"},
+		Mandatory:   []string{"slabs_near_upper_bound", "slabs_near_lower_bound", "ops_that_removed_slabs", "slab_sizes_swept", "deep-tree-cases-depth>=4", "removals-that-created-slabs", "root-index-slab-splits-during-removal"},
 	})
 	register(&Prop{
 		ID: "C06", Level: "exploration", Run: runC06, Cases: cases(16*48, 16*200), MinNonTrivial: 8,
